@@ -193,9 +193,12 @@ def reset_backend(cls, keep_workarounds=False):
     import passlib.utils.handlers as uh
 
     owner = cls._get_backend_owner() if hasattr(cls, "_get_backend_owner") else cls
-    for k in ("_BackendMixin__backend", "_calc_checksum_backend"):
-        if k in owner.__dict__:
-            delattr(owner, k)
+    # (the two _pending_* attributes are scratch state of set_backend(); an execution that went wrong may leave
+    # them behind, and the next execution must not start from them)
+    for c in {owner, cls}:
+        for k in ("_BackendMixin__backend", "_calc_checksum_backend", "_pending_backend", "_pending_dry_run"):
+            if k in c.__dict__:
+                delattr(c, k)
     if issubclass(owner, uh.SubclassBackendMixin):
         mm = owner._backend_mixin_map
         bases = [b for b in owner.__bases__ if b not in mm.values()]
@@ -483,6 +486,61 @@ class PostInit(Harness):
         return (st["H"].verify(PW, _known()["md5_crypt"]), st["ctx"].verify(PW, _known()["sha256_crypt"]))
 
 
+class LazyTables(Harness):
+    """lazily built module-level tables, first use from two threads: the DES permutation tables
+    (passlib.crypto.des._load_tables, checked through ONE of the four globals) and the digest-info cache of
+    passlib.crypto.digest.lookup_hash.  Only the initialisation code is instrumented: a thread can be preempted
+    inside it, the other thread's use of the tables runs atomically."""
+
+    name = "lazy_tables"
+
+    def __init__(self, ops):
+        self.ops = ops
+
+    def codes(self):
+        import passlib.crypto.des as D
+        import passlib.crypto.digest as G
+
+        return [D._load_tables, G.lookup_hash]
+
+    def fresh(self):
+        import passlib.crypto.des as D
+        import passlib.crypto.digest as G
+
+        D.PCXROT = D.IE3264 = D.SPE = D.CF6464 = None
+        G._hash_info_cache.clear()
+        return {}
+
+    def body(self, st, op):
+        kind, _, arg = op.partition(":")
+        if kind == "desint":
+            from passlib.crypto.des import des_encrypt_int_block
+
+            key = int.from_bytes((arg.encode() * 8)[:8], "big")
+            return lambda: des_encrypt_int_block(key, 0x0123456789ABCDEF, salt=0x00A5F1, rounds=1)
+        if kind == "desblock":
+            from passlib.crypto.des import des_encrypt_block
+
+            return lambda: des_encrypt_block((arg.encode() * 7)[:7], b"KGS!@#$%").hex()
+        if kind == "lookup":
+            from passlib.crypto.digest import lookup_hash
+
+            return lambda: (lookup_hash(arg).name, lookup_hash(arg).digest_size)
+        if kind == "hmac":
+            from passlib.crypto.digest import compile_hmac
+
+            return lambda: compile_hmac(arg, b"key")(b"msg").hex()
+        raise KeyError(op)
+
+    def post(self, st):
+        from passlib.crypto.des import des_encrypt_int_block
+        from passlib.crypto.digest import lookup_hash
+
+        # (object identity of the cached records is not an observable result: names and sizes are)
+        return (des_encrypt_int_block(0x0101010101010101, 0), lookup_hash("sha256").name, lookup_hash("sha-256").name,
+                lookup_hash("sha-256").digest_size, lookup_hash("sha256").iana_name)
+
+
 class PurePython(Harness):
     """after initialisation: two threads hashing DIFFERENT passwords through the pure-python primitives
     (built-in MD4, DES, scrypt, salsa) must not disturb each other (no shared scratch state)"""
@@ -566,6 +624,8 @@ def make_harness(spec):
         return PostInit(ops)
     if kind == "pure_python":
         return PurePython(ops)
+    if kind == "lazy_tables":
+        return LazyTables(ops)
     raise core.HarnessError(f"unknown harness {kind}")
 
 
@@ -745,6 +805,9 @@ def harness_specs(quick):
         add(f"backend_{hn}", ("hash", "verify"), b2)
         add(f"backend_{hn}", ("verify", "has_backend"), b2)
     add("backend_bcrypt", ("hash", "verify"), 1)
+    add("lazy_tables", ("desint:a", "desblock:b"), b2)
+    add("lazy_tables", ("lookup:sha256", "lookup:sha256"), b2)
+    add("lazy_tables", ("lookup:sha-256", "hmac:sha256"), b2)
     add("pure_python", ("md4:a", "md4:b"), 1)
     add("pure_python", ("md4split:a", "md4split:bb"), 1)
     add("pure_python", ("scrypt:a", "scrypt:b"), 1)
